@@ -81,7 +81,9 @@ def _c15_harnesses():
                 nm, ["C15"], owner,
                 "[%s] requires rep_ok; ensures rep_ok (consumed <= len/2, empty => consumed = 0, debug check_rep "
                 "asserts pass, no panic) /\\ %s" % (label, post),
-                kind="bounded", bound=("backing container length <= {N}" if backing == "vec" else "backing container length <= {NS}") +
+                kind="bounded", bound=("backing container length <= {N}" if backing == "vec" else
+                                       ("backing container length <= {NSA} (CBMC runs out of memory on SmallVec beyond that; the Verus proof of advance "
+                                        "is generic in the container)" if op == "advance" else "backing container length <= {NS}")) +
                 ": every (length, consumed prefix) pair enumerated, contents symbolic; inductive per operation => all "
                 "histories within that size",
                 covers=covers, timeout=900, mod="sliding_deque"))
@@ -146,7 +148,7 @@ SLIDING_DEQUE = KaniUnit(
     crate="sliding_deque",
     attachments=[("sliding_deque/src/sliding_deque.rs", os.path.join(KC, "sliding_deque.rs"), "sliding_deque"),
                  ("sliding_deque/src/sorted_deque.rs", os.path.join(KC, "sorted_deque.rs"), "sorted_deque")],
-    params={"quick": {"N": 5, "NS": 3, "NC": 4, "U": 12, "M": 4, "NCF": 7, "UCF": 11}, "thorough": {"N": 7, "NS": 4, "NC": 6, "U": 14, "M": 5, "NCF": 10, "UCF": 14}},
+    params={"quick": {"N": 5, "NS": 3, "NC": 4, "U": 12, "M": 4, "NCF": 7, "UCF": 11, "NSA": 2}, "thorough": {"N": 7, "NS": 4, "NC": 6, "U": 14, "M": 5, "NCF": 10, "UCF": 14, "NSA": 2}},
     harnesses=_c15_harnesses() + _c16_harnesses(),
 )
 
